@@ -34,6 +34,7 @@ type Obligation struct {
 	Model        string
 	SMTSize      int
 	query        string
+	relaxed      bool // candidate-generation query (see buildQueryRelaxed)
 	Replay       *ReplaySpec
 	ShortTimeout bool
 }
